@@ -20,7 +20,7 @@ PROPERTY = "C12"
 RULE = (
     "(a) every integer argument combination of every(n,start,end), between(a,b[,modulo]), lt/gt/lte/gte(k) in "
     "[-6,6] (thorough [-9,9]; None where the signature defaults to None; n != 0) x v in [-20,20] (thorough "
-    "[-30,30]) - exhaustive; (b) Hypothesis: inputs of lo/li x selectors with 1-3 constraints (=literal, =env "
+    "[-30,30]), and throttle(1..3) asked every sequence of <= 4 values of [-1,4] against a current/trigger reference - exhaustive; (b) Hypothesis: inputs of lo/li x selectors with 1-3 constraints (=literal, =env "
     "name, ~predicate) on focus and context variables at both stack levels, delivered to a plain probe and to "
     "an overriding probe, in every other case after an unconditional probe on the focus was activated first and "
     "deactivated first; plus selectors using one capture name at two call levels with the condition on "
@@ -29,7 +29,7 @@ RULE = (
     "counted but only (b) cases enter distinct_nontrivial."
 )
 ASSUMPTIONS = [
-    "throttle has no stated arithmetic meaning: it is only checked end-to-end against a fresh instance called once per candidate event",
+    "throttle has no stated arithmetic meaning: it is checked end-to-end against a reference of the current/trigger state the property's anchor names (accept the first value, then a value again while it is the accepted one, another one once it reaches the boundary, which advances by one period)",
     "modulo = 0 and non-integer arguments are outside the documented domain",
 ]
 
@@ -47,10 +47,47 @@ def ref_range(v, start, end, modulo):
     return True
 
 
+class RefThrottle:
+    """Reference for the stateful rate predicate (the `current` / `trigger` state named by the
+    property's anchor): the first value is accepted and sets the next boundary one period
+    further; a value is accepted again for as long as the variable still holds the accepted
+    value (a condition is about the value a variable holds, however many events ask about it);
+    another value is accepted once it reaches the boundary, which then moves one period on."""
+
+    def __init__(self, period):
+        self.period = period
+        self.accepted = None
+        self.boundary = None
+
+    def __call__(self, v):
+        if self.accepted is None:
+            self.accepted, self.boundary = v, v + self.period
+            return True
+        if v == self.accepted:
+            return True
+        if v >= self.boundary:
+            self.accepted, self.boundary = v, self.boundary + self.period
+            return True
+        return False
+
+
 def box_check(kind, args, vs):
     """Compare ptera.tools against the arithmetic definition; returns (n, first mismatch)."""
     from ptera import tools
 
+    if kind == "throttle":
+        # `vs` is ignored: the argument is (period, sequence of values asked in that order)
+        period, seq = args
+        pred, ref = tools.throttle(period), RefThrottle(period)
+        for i, v in enumerate(seq):
+            try:
+                got = bool(pred(v))
+            except BaseException as e:
+                return v, f"asked #{i} raised {type(e).__name__}: {e}"
+            want = ref(v)
+            if got != want:
+                return v, f"asked #{i} of {list(seq)} returned {got}, the current/trigger reference says {want}"
+        return None, None
     if kind == "every":
         n, start, end = args
         pred = tools.every(n, start, end)
@@ -87,6 +124,12 @@ def box_cases(lo_, hi):
     for kind in ("lt", "gt", "lte", "gte"):
         for k in ints:
             yield kind, (k,)
+    # the stateful predicate: every non-decreasing-or-not sequence of up to 4 questions over a
+    # small range (repeated questions about one value included)
+    for period in (1, 2, 3):
+        for n in (1, 2, 3, 4):
+            for seq in itertools.product(range(-1, 5), repeat=n):
+                yield "throttle", (period, seq)
 
 
 # ---------------------------------------------------------------------------------------
@@ -366,7 +409,7 @@ def check_e2e(sel, xs, ys, p0, ov_kind, rec=None):
 
         c = throttled[0]
         key = c.alias if c.alias is not None else c.name
-        th = tools.throttle(_lit(c.value[2][0]))
+        th = RefThrottle(_lit(c.value[2][0]))
         expected = [ev for ev in cand if (key not in ev or th(ev[key]))]
     else:
         expected = [ev for ev in cand if satisfies(sel, ev, stats)]
@@ -612,7 +655,10 @@ def _constrain_first(s, vop, val):
 
 def replay(payload):
     if payload.get("mode") == "box":
-        v, why = box_check(payload["kind"], tuple(payload["args"]), [payload["v"]])
+        args = payload["args"]
+        if payload["kind"] == "throttle":
+            args = (args[0], tuple(args[1]))
+        v, why = box_check(payload["kind"], tuple(args), [payload["v"]])
         if why:
             return [{"clause": "predicate", "detail": f"{payload['kind']}{tuple(payload['args'])}({v}) {why}"}]
         return []
